@@ -1951,9 +1951,16 @@ class SpaceUpdater(SharedSpaceOperations):
 
         if self.manager._can_add(
             parent, name, EditableParentImpl):
-            return self._copy_space_recursively(
-                parent, source, name, defined_only
-            )
+            try:
+                return self._copy_space_recursively(
+                    parent, source, name, defined_only
+                )
+            except BaseException:
+                # Remove the partial copy
+                if name in parent.named_spaces:
+                    parent.model.updater.del_defined_space(
+                        parent.named_spaces[name])
+                raise
         else:
             raise ValueError("Cannot create space '%s'" % name)
 
